@@ -186,7 +186,7 @@ def run_related_host_case(target):
     from drivers.websession import expected
     U = lambda h, p: {'scheme': 'http', 'host': h, 'port': 'def', 'path': p, 'creds': False}
     script = {'start': U('h1', 'a'), 'maxred': 3,
-              'steps': [{'status': 302, 'loc': U('h1', 'b')}, {'status': 302, 'loc': U(target, 'a'), 'setcookie': False},
+              'steps': [{'status': 302, 'loc': U('h1', 'b'), 'setcookie': True}, {'status': 302, 'loc': U(target, 'a'), 'setcookie': False},
                         {'status': 200}]}
     ev, outcome = X.run_script(script)
     exps = [expected(U('h1', 'a')), expected(U('h1', 'b')), expected(U(target, 'a'))]
